@@ -12,6 +12,14 @@
 //!   * `unit=us`         → the back-off values `<d>` are microseconds (default: milliseconds); a value `max` is
 //!     `Duration::MAX` in either unit (tokio: an unrepresentable deadline = far future). The op clock stays in ms.
 //!   * `aimd … q`        → decrease factor q/4 (dyadic, so `limit as f64 * factor` is exact)
+//!
+//! or: `retry chain=<s1,s2,…> [unit=us]` — the builder chain itself (replaces max/dyn/retry/bo/budget), applied left
+//! to right to `RetryLayer::builder()` through the public setters, so that the ORDER of the setters (and repeated
+//! setters) is a dimension of its own:
+//!   `m<n>` = `.max_attempts(n)`; `f<n>` = `.max_attempts_fn(f)` with f(req) = the request's `ma=`, else `<n>`;
+//!   `bf<d>` = `.fixed_backoff(d)`, `be<d>` = `.exponential_backoff(d)`, `bt<d>/<d>/…` = `.backoff(table)`;
+//!   `p<mask>` = `.retry_on(mask)`; `ubucket:…` / `uaimd:…` = `.budget(a new budget)`; anything else is skipped;
+//!   `chain=-` = no setter at all (the builder's defaults). Probes and manual deposits go to the budget given LAST.
 use crate::world::*;
 use std::sync::Arc;
 use std::time::Duration;
@@ -42,8 +50,100 @@ fn dur(s: &str, us: bool) -> Duration {
     }
 }
 
+type Budgets = (Option<Arc<dyn RetryBudget>>, Option<Arc<AimdBudget>>);
+
+/// `bucket:<max>:<initial>` / `aimd:<min>:<max>:<deposit>:<withdraw>:<q>`; anything else: no budget
+fn mk_budget(bu: &str) -> Budgets {
+    let (kind, arg) = bu.split_once(':').unwrap_or((bu, ""));
+    let p = nums(arg, ':');
+    let g = |i: usize, d: u64| p.get(i).cloned().unwrap_or(d);
+    if kind == "bucket" {
+        let b = RetryBudgetBuilder::new()
+            .token_bucket()
+            .max_tokens(g(0, 1) as usize)
+            .initial_tokens(g(1, g(0, 1)) as usize)
+            .build();
+        (Some(b), None)
+    } else if kind == "aimd" {
+        let a = Arc::new(AimdBudget::new(
+            g(0, 1) as usize,
+            g(1, 1) as usize,
+            g(2, 1) as usize,
+            g(3, 1) as usize,
+            g(4, 2) as f64 / 4.0,
+        ));
+        (Some(a.clone()), Some(a))
+    } else {
+        (None, None)
+    }
+}
+
+type B = tower_resilience_retry::RetryConfigBuilder<Req, IErr>;
+
+/// one of the three back-off setters: `fixed` / `exp` / anything else = a custom table (`sep` between its values)
+fn set_backoff(b: B, kind: &str, arg: &str, sep: char, us: bool) -> B {
+    match kind {
+        "fixed" => b.fixed_backoff(dur(arg, us)),
+        "exp" => b.exponential_backoff(dur(arg, us)),
+        _ => {
+            let table: Vec<Duration> = arg.split(sep).filter(|x| !x.is_empty()).map(|x| dur(x, us)).collect();
+            b.backoff(FnInterval::new(move |attempt: usize| table.get(attempt).cloned().unwrap_or(Duration::ZERO)))
+        }
+    }
+}
+
+/// a request without `ma=` (chain mode): the extractor in force answers its own default
+const NO_MA: u64 = u64::MAX;
+
+fn all_digits(s: &str) -> Option<u64> {
+    if !s.is_empty() && s.bytes().all(|x| x.is_ascii_digit()) {
+        s.parse().ok()
+    } else {
+        None
+    }
+}
+
+/// `chain=<s1,s2,…>`: the setters applied left to right to `RetryLayer::builder()` through the public API.
+/// The budget handle kept for probes / manual operations is the one handed to the LAST `budget(..)` call.
+fn build_chain(chain: &str, us: bool) -> (B, Budgets) {
+    let mut b = RetryLayer::<Req, IErr>::builder();
+    let mut budgets: Budgets = (None, None);
+    for item in chain.split(',') {
+        if !item.is_ascii() || item.is_empty() {
+            continue;
+        }
+        let (h1, a1) = item.split_at(1);
+        let (h2, a2) = item.split_at(item.len().min(2));
+        match (h1, all_digits(a1), h2) {
+            ("m", Some(n), _) => b = b.max_attempts(n as usize),
+            ("f", Some(n), _) => {
+                b = b.max_attempts_fn(move |req: &Req| if req.key == NO_MA { n as usize } else { req.key as usize })
+            }
+            ("p", Some(mask), _) => b = b.retry_on(move |e: &IErr| e.kind < 64 && (mask >> e.kind) & 1 == 1),
+            (_, _, "bf") => b = set_backoff(b, "fixed", a2, '/', us),
+            (_, _, "be") => b = set_backoff(b, "exp", a2, '/', us),
+            (_, _, "bt") => b = set_backoff(b, "fn", a2, '/', us),
+            ("u", _, _) => {
+                let made = mk_budget(a1);
+                if let Some(bu) = made.0.clone() {
+                    b = b.budget(bu);
+                    budgets = made;
+                }
+            }
+            _ => {}
+        }
+    }
+    (b, budgets)
+}
+
 impl Adapter {
     pub fn new(kv: &Kv) -> Adapter {
+        let us = kv.get("unit") == Some("us");
+        if let Some(chain) = kv.get("chain") {
+            let (b, (budget, aimd)) = build_chain(chain, us);
+            let layer = b.build();
+            return Adapter { svc: layer.layer(Inner::new()), budget, aimd, dflt_max: NO_MA };
+        }
         let mut b = RetryLayer::<Req, IErr>::builder();
         let dflt_max = kv.u64("max", 3);
         if kv.u64("dyn", 0) == 1 {
@@ -56,44 +156,9 @@ impl Adapter {
         }
         if let Some(bo) = kv.get("bo") {
             let (kind, arg) = bo.split_once(':').unwrap_or((bo, "0"));
-            let us = kv.get("unit") == Some("us");
-            match kind {
-                "fixed" => b = b.fixed_backoff(dur(arg, us)),
-                "exp" => b = b.exponential_backoff(dur(arg, us)),
-                _ => {
-                    let table: Vec<Duration> = arg.split(',').filter(|x| !x.is_empty()).map(|x| dur(x, us)).collect();
-                    b = b.backoff(FnInterval::new(move |attempt: usize| {
-                        table.get(attempt).cloned().unwrap_or(Duration::ZERO)
-                    }));
-                }
-            }
+            b = set_backoff(b, kind, arg, ',', us);
         }
-        let mut budget: Option<Arc<dyn RetryBudget>> = None;
-        let mut aimd = None;
-        if let Some(bu) = kv.get("budget") {
-            let (kind, arg) = bu.split_once(':').unwrap_or((bu, ""));
-            let p = nums(arg, ':');
-            let g = |i: usize, d: u64| p.get(i).cloned().unwrap_or(d);
-            if kind == "bucket" {
-                budget = Some(
-                    RetryBudgetBuilder::new()
-                        .token_bucket()
-                        .max_tokens(g(0, 1) as usize)
-                        .initial_tokens(g(1, g(0, 1)) as usize)
-                        .build(),
-                );
-            } else if kind == "aimd" {
-                let a = Arc::new(AimdBudget::new(
-                    g(0, 1) as usize,
-                    g(1, 1) as usize,
-                    g(2, 1) as usize,
-                    g(3, 1) as usize,
-                    g(4, 2) as f64 / 4.0,
-                ));
-                aimd = Some(a.clone());
-                budget = Some(a);
-            }
-        }
+        let (budget, aimd) = kv.get("budget").map(mk_budget).unwrap_or((None, None));
         if let Some(bu) = budget.clone() {
             b = b.budget(bu);
         }
